@@ -534,6 +534,30 @@ impl<'tcx> Cx<'tcx> {
                             return self.bytes_j(b, *inner);
                         }
                     }
+                    // `&&[u8; N]` (e.g. the right-hand side of `bytes == b"lit"`): a thin pointer stored in the allocation
+                    if let ty::Ref(_, inner2, _) = inner.kind() {
+                        if let ty::Array(e, n) = inner2.kind() {
+                            if *e == self.tcx.types.u8 {
+                                if let (Some(n), Some(GlobalAlloc::Memory(m))) = (n.try_to_target_usize(self.tcx), self.tcx.try_get_global_alloc(alloc_id)) {
+                                    let a = m.inner();
+                                    let o = off.bytes();
+                                    let psz = self.tcx.data_layout.pointer_size().bytes();
+                                    if o + psz <= a.len() as u64 {
+                                        if let Some(t) = a.provenance().ptrs().iter().find(|(po, _)| po.bytes() == o).map(|(_, p)| p.alloc_id()) {
+                                            let raw = a.inspect_with_uninit_and_ptr_outside_interpreter(o as usize..(o + psz) as usize);
+                                            let mut base: u64 = 0;
+                                            for i in 0..psz as usize {
+                                                base |= (raw[i] as u64) << (8 * i);
+                                            }
+                                            if let Some(b) = self.alloc_bytes(t, base, Some(n)) {
+                                                return self.bytes_j(b, *inner);
+                                            }
+                                        }
+                                    }
+                                }
+                            }
+                        }
+                    }
                 }
                 let want_len = match ty.kind() {
                     ty::Ref(_, inner, _) => match inner.kind() {
